@@ -15,16 +15,48 @@ def coq_str(s):
     return '[' + ';'.join(str(ord(c)) for c in s) + ']' if s else '[]'
 
 
+def inline_single_use_consts(flat):
+    """`const T X = EXPR; STMT` -> STMT with X replaced by EXPR, when STMT is the very next simple statement (no braces), uses X
+    exactly once and X occurs nowhere else in the function.  EXPR is moved over nothing, so the evaluation order is kept."""
+    while True:
+        for m in re.finditer(r'const (?:auto|[\w:]+) (\w+) = ([^;{}]+); ([^;{}]*;)', flat):
+            name, expr, stmt = m.groups()
+            word = r'\b%s\b' % re.escape(name)
+            if len(re.findall(word, flat)) == 2 and len(re.findall(word, stmt)) == 1:
+                flat = flat[:m.start()] + re.sub(word, lambda _: expr, stmt) + flat[m.end():]
+                break
+        else:
+            return flat
+
+
 def generate():
     h = strip_comments(rd('logmessage.h'))
     # preprocessor: keep the Qt >= 5.15 branch and the thread-enabled branch (the harness build)
     body = fn_body(h, 'LogMessage::allAttributes')
     flat = re.sub(r'\s+', ' ', body)
-    m = need(re.search(r'auto attrs = QVariantHash \{(.*?)\};', flat), 'allAttributes(): QVariantHash initialiser list')
-    entries = re.findall(r'\{ QStringLiteral\("([^"]*)"\), ([^{}]*?) \}', m.group(1))
+    ENTRY = r'\{ QStringLiteral\("([^"]*)"\), ([^{}]*?) \}'
+    m = re.search(r'auto (\w+) = QVariantHash \{(.*?)\};', flat)
+    if m:
+        # shape 1: auto V = QVariantHash { { QStringLiteral("name"), accessor }, ... };
+        var, inner = m.group(1), m.group(2)
+        need(flat[:m.start()].strip() == '', 'allAttributes(): unrecognised text before the hash is filled: %r' % flat[:m.start()].strip())
+        entries = re.findall(ENTRY, inner)
+        rest = re.sub(ENTRY + ',?', '', inner)
+    else:
+        # shape 2: QVariantHash V; [V.reserve(...);] V.insert(QStringLiteral("name"), accessor); ... (one insert per field, nothing
+        # else in between; a later insert of the same name would replace: json_cfg_goodb demands distinct names)
+        m0 = need(re.search(r'QVariantHash (\w+); (?:\1\.reserve\([^;{}]*\); )?', flat), 'allAttributes(): QVariantHash initialiser list')
+        var = m0.group(1)
+        INS = re.escape(var) + r'\.insert\(QStringLiteral\("([^"]*)"\), ([^;{}]*?)\);'
+        need(flat[:m0.start()].strip() == '', 'allAttributes(): unrecognised text before the hash is filled: %r' % flat[:m0.start()].strip())
+        INS_NC = re.escape(var) + r'\.insert\(QStringLiteral\("[^"]*"\), [^;{}]*?\);'
+        m = need(re.compile(r'(?:(?:' + INS_NC + r'|#ifndef QTLOGGER_NO_THREAD|#endif) ?)+').match(flat, m0.end()),
+                 'allAttributes(): QVariantHash initialiser list')
+        inner = m.group(0)
+        entries = re.findall(INS, inner)
+        rest = re.sub(INS, '', inner)
     need(entries, 'allAttributes(): entries of the initialiser list')
     # nothing else may hide between the entries
-    rest = re.sub(r'\{ QStringLiteral\("([^"]*)"\), ([^{}]*?) \},?', '', m.group(1))
     rest = re.sub(r'#ifndef QTLOGGER_NO_THREAD|#endif', '', rest).strip()
     need(rest == '', 'allAttributes(): unrecognised text in the initialiser list: %r' % rest)
     blt = []
@@ -34,8 +66,9 @@ def generate():
             raise AnchorError('ANCHOR NOT FOUND: allAttributes(): unknown accessor %r for "%s"' % (expr, name))
         blt.append('(%s, %s)' % (coq_str(name), ACCESSOR[expr]))
     after = flat[m.end():]
-    overlay = bool(re.search(r'#if QT_VERSION >= QT_VERSION_CHECK\(5, 15, 0\) attrs\.insert\(m_attributes\); #else', after))
-    need(re.search(r'return attrs;\s*$', after), 'allAttributes(): return attrs')
+    V = re.escape(var)
+    overlay = bool(re.search(r'#if QT_VERSION >= QT_VERSION_CHECK\(5, 15, 0\) %s\.insert\(m_attributes\); #else' % V, after))
+    need(re.search(r'return %s;\s*$' % V, after), 'allAttributes(): return attrs')
     # the accessors themselves
     need(re.search(r'inline QString message\(\) const \{ return m_message; \}', re.sub(r'\s+', ' ', h)), 'LogMessage::message() returns m_message')
     need(re.search(r'inline int line\(\) const \{ return m_context\.line; \}', re.sub(r'\s+', ' ', h)), 'LogMessage::line()')
@@ -55,12 +88,21 @@ def generate():
 
     j = strip_comments(rd('formatters/jsonformatter.cpp'))
     fb = re.sub(r'\s+', ' ', fn_body(j, 'JsonFormatter::format'))
-    need(re.search(r'const auto attrs = lmsg\.allAttributes\(\);', fb), 'JsonFormatter::format: lmsg.allAttributes()')
-    need(re.search(r'for \(auto it = attrs\.cbegin\(\); it != attrs\.cend\(\); \+\+it\) \{ obj\.insert\(it\.key\(\), QJsonValue::fromVariant\(it\.value\(\)\)\); \}', fb),
-         'JsonFormatter::format: every entry inserted with QJsonValue::fromVariant')
-    if re.search(r'return QString::fromUtf8\(QJsonDocument\(obj\)\.toJson\(m_compact \? QJsonDocument::Compact : QJsonDocument::Indented\)\);', fb):
+    fb = inline_single_use_consts(fb)
+    av = need(re.search(r'const (?:auto|QVariantHash) (\w+) = lmsg\.allAttributes\(\);', fb), 'JsonFormatter::format: lmsg.allAttributes()').group(1)
+    A = re.escape(av)
+    BEGIN, END = r'(?:cbegin|constBegin)', r'(?:cend|constEnd)'
+    INSERT = r'(\w+)\.insert\(it\.key\(\), QJsonValue::fromVariant\(it\.value\(\)\)\);'
+    # for (auto it = A.cbegin(); it != A.cend(); ++it) { O.insert(...); }   or the same walk written as a while loop
+    lm = (re.search(r'for \(auto it = %s\.%s\(\); it != %s\.%s\(\); \+\+it\) \{ %s \}' % (A, BEGIN, A, END, INSERT), fb)
+          or re.search(r'auto it = %s\.%s\(\); const auto end = %s\.%s\(\); while \(it != end\) \{ %s \+\+it; \}' % (A, BEGIN, A, END, INSERT), fb))
+    ov = need(lm, 'JsonFormatter::format: every entry inserted with QJsonValue::fromVariant').group(1)
+    O = re.escape(ov)
+    need(re.search(r'QJsonObject %s;' % O, fb[:lm.start()]), 'JsonFormatter::format: the object starts empty')
+    tail = fb[lm.end():]
+    if re.search(r'return QString::fromUtf8\(QJsonDocument\(%s\)\.toJson\(m_compact \? QJsonDocument::Compact : QJsonDocument::Indented\)\);' % O, tail):
         flag = 'true'
-    elif re.search(r'return QString::fromUtf8\(QJsonDocument\(obj\)\.toJson\(m_compact \? QJsonDocument::Indented : QJsonDocument::Compact\)\);', fb):
+    elif re.search(r'return QString::fromUtf8\(QJsonDocument\(%s\)\.toJson\(m_compact \? QJsonDocument::Indented : QJsonDocument::Compact\)\);' % O, tail):
         flag = 'false'
     else:
         raise AnchorError('ANCHOR NOT FOUND: JsonFormatter::format: toJson(m_compact ? Compact : Indented)')
